@@ -182,6 +182,21 @@ SuperEvents(s) ==
     \cup {[E0 EXCEPT !.kind = "AddVstorage", !.creator = "a02", !.size = 1000000],
           [E0 EXCEPT !.kind = "RemoveVstorage", !.creator = "a02", !.size = 1000000]}
 
+\* valset: three validators, two places in the active set. Stake moves in whole units of consensus power (and in quarter
+\* units that only move the share ratio), operators withdraw their own stake, the unbonded validator is emptied and removed;
+\* node a02 (capacity at the threshold) declares full service with and without naming a validator. The validator set is
+\* brought up to date at the end of the block: C20 on every step, also the steps taken by the end-blocker's hooks.
+ValsetVals == {"v1", "v2", "v3"}
+ValsetEvents(s) ==
+    {[E0 EXCEPT !.kind = "Delegate", !.creator = "a02", !.val = v, !.amount = m] : v \in ValsetVals, m \in {250000, 1000000}}
+    \cup {[E0 EXCEPT !.kind = "Delegate", !.creator = "a04", !.val = v, !.amount = 1000000] : v \in ValsetVals}
+    \cup UNION {{[E0 EXCEPT !.kind = "Undelegate", !.creator = x.d, !.val = x.v, !.amount = m] :
+                    m \in {x.shares} \cup (IF x.shares > 1000000 THEN {1000000} ELSE {})} : x \in Rng(s.delegs)}
+    \cup UNION {{[E0 EXCEPT !.kind = "Redelegate", !.creator = x.d, !.val = x.v, !.val2 = v2, !.amount = x.shares] :
+                    v2 \in ValsetVals \ {x.v}} : x \in {y \in Rng(s.delegs) : y.d \in {"a02", "vo3"}}}
+    \cup {[E0 EXCEPT !.kind = "Reset", !.creator = "a02", !.status = 15, !.val = v] : v \in {"", "v3"}}
+    \cup {[E0 EXCEPT !.kind = "Blocks", !.n = 1]}
+
 \* reward: capacity changes and claims between minting blocks
 RewardEvents(s) ==
     {[E0 EXCEPT !.kind = k, !.creator = a, !.size = 1000000] : k \in {"AddVstorage", "RemoveVstorage"}, a \in {"a01", "a02"}}
@@ -348,6 +363,7 @@ Events(s) ==
       [] Family = "did"    -> DidEvents(s)
       [] Family = "super"  -> SuperEvents(s)
       [] Family = "reward" -> RewardEvents(s)
+      [] Family = "valset" -> ValsetEvents(s)
       [] Family = "auth"   -> AuthEvents(s)
       [] Family = "sidauth" -> SidAuthEvents(s)
       [] Family = "sponsor" -> SponsorEvents(s)
